@@ -28,6 +28,9 @@ site: http://bugseng.com/products/ppl/ . */
 #include "assertions.hh"
 #include <iostream>
 #include <algorithm>
+#ifdef BUGSENG_PPL_VERIF
+#include "verif_hooks.hh"
+#endif
 
 namespace Parma_Polyhedra_Library {
 
@@ -62,6 +65,9 @@ Powerset<D>::collapse(const Sequence_iterator sink) {
 template <typename D>
 void
 Powerset<D>::omega_reduce() const {
+#ifdef BUGSENG_PPL_VERIF
+  PPL_VERIF_REACH(POWERSET_OMEGA_REDUCE);
+#endif
   if (reduced) {
     return;
   }
